@@ -123,7 +123,9 @@ def r3(ctx):
         rc = [e for e in o.effects if e.name == "reconnector"]
         sl = [e for e in o.effects if e.name == "sleep"]
         ok = names == ["sleep", "reconnector"] and sl[0].args == (Sym("seconds"),) and (rc[0].kwargs.get("reconnecting") == TRUE or rc[0].args == (TRUE,))
-        ctx.ob("_dispatcher:DispatcherBase.reconnect:sleep-then-reconnect", ok, f"effects {[repr(e) for e in o.effects]}", idx.loc(idx.func("_dispatcher:DispatcherBase.reconnect").node))
+        ctx.ob("_dispatcher:DispatcherBase.reconnect:sleep-then-reconnect", ok, f"effects {[repr(e) for e in o.effects]}" if ok else
+               f"reconnect(seconds, reconnector) ends as {o.kind} {o.exc_class or ''} {o.note or ''} after effects {[repr(e) for e in o.effects]}: for every interval (int or float) it must sleep(seconds) and then call reconnector(reconnecting=True)",
+               o.raise_loc or idx.loc(idx.func("_dispatcher:DispatcherBase.reconnect").node), {"path": path_text(o)})
 
     def body2(run):
         d = I.call(run, Cls("_dispatcher:WrappedDispatcher"), [new_obj(run, None, "app"), C(10), new_obj(run, None, "rel"), Sym("hd", "func")], {}, None)
@@ -231,3 +233,9 @@ def r5(ctx):
 def r6(ctx):
     from .c13 import r4 as dispatcher_skeleton
     dispatcher_skeleton(ctx)
+
+
+@rule("R-C15-7", min_instances=4, title="a re-established connection announces itself: after connect() exactly one of on_reconnect / on_open (on_open when no on_reconnect was given), then the dispatcher reads")
+def r7(ctx):
+    from .c13 import r3 as open_first
+    open_first(ctx)
